@@ -29,10 +29,7 @@ Section Prefix.
       | OFlag _ => if fd then continue (if is_read dep d l then [(l_no l, FPlain)] else []) (is_written dep d l)
                    else continue [] false
       | OMem m =>
-        let wb := match m_base m with Some b => is_written dep (OReg b) l | None => false end in
-        if andb (m_pre m) wb then ([], None)
-        else if andb (m_post m) wb then ([], None)
-        else continue (if is_memload m l s1 then [(l_no l, FStoreLoad)] else []) (is_memstore m l)
+        continue (if is_memload m l s1 then [(l_no l, FStoreLoad)] else []) (is_memstore m l)
       | OOther => continue [] false
       end
     end.
@@ -47,8 +44,7 @@ Section Prefix.
     - destruct fd.
       + destruct (is_written dep (OFlag fl) l); [reflexivity|]. cbn [fst]. rewrite IH. reflexivity.
       + cbn [fst app]. exact IH.
-    - destruct (andb (m_pre m) _); [reflexivity|]. destruct (andb (m_post m) _); [reflexivity|].
-      destruct (is_memstore m l); [reflexivity|]. cbn [fst]. rewrite IH. reflexivity.
+    - destruct (is_memstore m l); [reflexivity|]. cbn [fst]. rewrite IH. reflexivity.
     - cbn [fst app]. exact IH.
   Qed.
 
@@ -77,7 +73,7 @@ Section Prefix.
       destruct d as [rg|fl|m|].
       + apply K.
       + destruct fd; [apply K | exact (K [] false)].
-      + destruct (andb (m_pre m) _); [reflexivity|]. destruct (andb (m_post m) _); [reflexivity|]. apply K.
+      + apply K.
       + exact (K [] false).
   Qed.
 
@@ -106,7 +102,7 @@ Section Prefix.
         * destruct (is_read dep (OFlag fl) l); [eapply Here; exact Hin | contradiction].
         * apply in_app_or in Hin. destruct Hin as [H|H]; [|eapply Rec; exact H].
           destruct (is_read dep (OFlag fl) l); [eapply Here; exact H | contradiction].
-      + destruct (andb (m_pre m) _); [contradiction|]. destruct (andb (m_post m) _); [contradiction|].
+      + idtac.
         destruct (is_memstore m l).
         * destruct (is_memload m l _); [eapply Here; exact Hin | contradiction].
         * apply in_app_or in Hin. destruct Hin as [H|H]; [|eapply Rec; exact H].
